@@ -121,7 +121,7 @@ Definition fill_cell (none : bool) (src : cell) (lag : Z) : cell :=
 (* range(int(first), int(last + res), res) for res > 0 *)
 Definition required_lags (first last res : Z) : list Z :=
   if last <? first then []
-  else map (fun k => first + Z.of_nat k * res) (seq 0 (Z.to_nat ((last - first) / res + 1))).
+  else map (fun k => first + Z.of_nat k * res) (seq 0 (Z.to_nat ((last - first + res - 1) / res + 1))).
 Definition fill_step (res : Z) (none : bool) (d : result (list (Z * cell))) (lag : Z)
   : result (list (Z * cell)) :=
   match d with
